@@ -4,11 +4,21 @@ import json, os, subprocess
 
 V = os.path.dirname(os.path.abspath(__file__))
 
+NOTE = "Real CoreRAD code (config.Parse, plugins, Advertiser/Monitor, schedgroup, errgroup, Server, metrics, HTTP handler, ndp codec) on the testing/synctest fake clock; the kernel side of every seam (socket, sysctl, rtnetlink via hook H1, link events via hook H2, signals, systemd socket) is a stub; Dialer.dial() is replaced through Dialer.DialFunc. Interleavings between two seam calls are not explored. Sampling, not enumeration, unless stated."
+TECH = "deterministic simulation with fault injection: seeded plans, seam-gated schedules on a fake clock, history/reference-model oracle, minimised replay"
+
+def C(text, ref, cat="exploration", note=NOTE, tech=TECH):
+    return (cat, text, note, tech, ref)
+
 CLAIMED = {
- "C06": ("exploration",
-         "Seeded search over solicitation/tick timelines (bounded-exhaustive grid corpus of <=3 (quick) / <=5 (thorough) solicitations from :: around the 3 s boundary x 3 interval settings, then random bursts, link flaps, transmit latency) against the real Advertiser on a fake clock; the spacing and served-within-3s rules are evaluated on the recorded WriteTo history. Exploration is the right level: the property quantifies over unbounded arrival histories.",
-         "Real scheduler/schedgroup/errgroup on the synctest clock; kernel socket stubbed by simConn. Interleavings between seams are not explored.",
-         "deterministic simulation: seeded timelines + history check", "6 (C06)"),
+ "C01": C("Seeded search over documented-valid configurations x changing machine state (addresses, loopback routes, MAC, forwarding, clock) under a running daemon; every RA actually transmitted on any path is decoded from its wire bytes and compared option by option with an executable reference model fed with the values that build read. Exploration: the space of configurations and states is unbounded.", "6 (C01), 5.1"),
+ "C03": C("Seeded search over accepted configurations built from boundary duration strings and NAT64 prefixes of every family/length; the simulated transport marshals like the real socket, so an unencodable RA fails the daemon at start-up exactly as in production; decoded values are compared with the configured meaning and representability is judged per field.", "6 (C03)"),
+ "C04": C("Seeded search over forwarding on/off timelines per interface interleaved with RA generation on all seven paths (initial, periodic, solicited, final, consistency check, metrics scrape, debug API) of the whole daemon; each RA/log line/metric/API answer is judged against the forwarding value that very build was given.", "6 (C04)"),
+ "C06": C("Seeded search over solicitation/tick timelines (bounded-exhaustive grid corpus of <=3 (quick) / <=5 (thorough) solicitations from :: around the 3 s boundary x 3 interval settings, then random bursts, link flaps, transmit latency) against the real Advertiser on a fake clock; the spacing and served-within-3s rules are evaluated on the recorded WriteTo history.", "6 (C06)"),
+ "C13": C("Address tables are environment nondeterminism: enumerated subsets (size <=2 quick / <=4 thorough) x all permutations of a 17-address pool, then seeded larger tables that change, are permuted, duplicated, emptied or fail while the daemon runs; each transmitted RA's prefix options are compared with the model applied to the listing that build was given.", "6 (C13-C15)"),
+ "C14": C("Same populations as C13; the first RDNSS server of every transmitted RA is compared with the documented ranking applied to the listing that build was given; RAs transmitted although no address was eligible or the listing failed are violations.", "6 (C13-C15)"),
+ "C15": C("Loopback route tables: enumerated subsets (size <=2 quick / <=4 thorough) x all permutations of a 13-route pool (nested prefixes with equal and different base, /128, ::/0, duplicates across two loopback interfaces), then seeded changing / permuted / duplicated / failing dumps; route options of every transmitted RA are compared with the model.", "6 (C13-C15)"),
+ "C16": C("Real daemon on the bubble clock with solicitations placed around every deprecation deadline, plus the plugins' TimeNow seam driven by a seeded jumping clock (forward jumps, repeats, readings before the epoch); value, monotonicity, zero-after-deadline, preferred<=valid and constant rules on every RA.", "6 (C16)"),
 }
 
 NOT_YET = {}
